@@ -18,7 +18,7 @@ impl Write for Sink {
     fn flush(&mut self) -> std::io::Result<()> { Ok(()) }
 }
 
-fn check(fill: usize, vals: &[i128], max: usize, use_drop: bool) -> Option<Cex> {
+fn check(fill: usize, vals: &[i128], max: usize, use_drop: bool, big: usize) -> Option<Cex> {
     let out = Rc::new(RefCell::new(Vec::new()));
     let o2 = out.clone();
     let vals2 = vals.to_vec();
@@ -40,11 +40,22 @@ fn check(fill: usize, vals: &[i128], max: usize, use_drop: bool) -> Option<Cex> 
             w.write_char(' ');
             want.push(b' ');
         }
+        if big > 0 {
+            // a piece larger than the internal buffer, written while earlier output is still pending
+            let piece: String = (0..big).map(|i| (b'a' + (i % 26) as u8) as char).collect();
+            w.write(&piece);
+            want.extend_from_slice(piece.as_bytes());
+            w.write(&-5i32);
+            want.extend_from_slice(b"-5");
+            let piece2 = piece.clone();
+            w.write(&piece2.as_str());
+            want.extend_from_slice(piece2.as_bytes());
+        }
         if use_drop { drop(w); } else { w.flush(); }
         want
     });
     let got = out.borrow().clone();
-    let inp = format!("{};{};{};{}", fill, vals.iter().map(|v| v.to_string()).collect::<Vec<_>>().join(","), max, use_drop as u8);
+    let inp = format!("{};{};{};{};{}", fill, vals.iter().map(|v| v.to_string()).collect::<Vec<_>>().join(","), max, use_drop as u8, big);
     match r {
         Err(e) => Some(Cex { input: inp, observed: e, expected: "no panic".into() }),
         Ok(want) => {
@@ -54,6 +65,7 @@ fn check(fill: usize, vals: &[i128], max: usize, use_drop: bool) -> Option<Cex> 
                     expected: format!("{} bytes: ..{:?}", want.len(), String::from_utf8_lossy(&want[k.saturating_sub(8)..(k + 24).min(want.len())])) });
             }
             // round trip through the Reader
+            if big > 0 { return None; }
             let tail = want[fill..].to_vec();
             let vals3 = vals.to_vec();
             let rt = guarded(move || { let mut r = Reader::new(Box::new(std::io::Cursor::new(tail))); let mut bad = None;
@@ -70,7 +82,7 @@ pub fn run(_seed: u64, replay: Option<String>) -> Outcome {
     if let Some(r) = replay {
         let p: Vec<&str> = r.split(';').collect();
         let vals: Vec<i128> = p[1].split(',').filter(|x| !x.is_empty()).map(|x| x.parse().unwrap_or(0)).collect();
-        return Outcome { cex: check(p[0].parse().unwrap_or(0), &vals, p[2].parse().unwrap_or(0), p.get(3) == Some(&"1")), cases: 1 };
+        return Outcome { cex: check(p[0].parse().unwrap_or(0), &vals, p[2].parse().unwrap_or(0), p.get(3) == Some(&"1"), p.get(4).and_then(|x| x.parse().ok()).unwrap_or(0)), cases: 1 };
     }
     let mut cases = 0;
     let vals: Vec<i128> = vec![0, -1, i64::MIN as i128, u64::MAX as i128, -128, i128::MIN, i128::MAX, 7, 1000000007, -9, 10, 99, 100, -100, i64::MAX as i128, 255, 65535, -32768, 42, 1, 9];
@@ -78,8 +90,12 @@ pub fn run(_seed: u64, replay: Option<String>) -> Outcome {
         for max in [0usize, 1, 7] { for use_drop in [false, true] {
             if max == 1 && fill % 5 != 0 { continue; }
             cases += 1;
-            if let Some(c) = check(fill, &vals, max, use_drop) { return Outcome { cex: Some(c), cases }; }
+            if let Some(c) = check(fill, &vals, max, use_drop, 0) { return Outcome { cex: Some(c), cases }; }
         } }
     }
+    for fill in [0usize, 10, 65530] { for big in [65537usize, 70000, 131073] { for max in [0usize, 4096] {
+        cases += 1;
+        if let Some(c) = check(fill, &vals[..5], max, big % 2 == 0, big) { return Outcome { cex: Some(c), cases }; }
+    } } }
     Outcome { cex: None, cases }
 }
